@@ -50,6 +50,9 @@ EXNS = {"KeyError", "IndexError", "AssertionError", "TypeError", "ValueError", "
 ENUM_TYPES: dict[str, dict[str, int]] = {}  # filled from the descriptor in rdf_pb2.py by translate_unit
 MESSAGES: dict[str, list[dict]] = {}  # message name -> fields, from the same descriptor
 INT_ENUMS: dict[str, dict[str, int]] = {}  # class X(IntEnum) of the module being translated: member -> value
+READER_METHODS: set[str] = set()  # methods already translated that only read the messages they are given
+OPAQUE: set[str] = set()
+NAMEDTUPLES: set[str] = set()
 FROZEN: set[str] = set()  # classes declared @dataclass(frozen=True): their instances are never changed in place
 TYPE_ALIASES: dict[str, ast.AST] = {}  # `X: TypeAlias = ...` of the module being translated
 
@@ -85,6 +88,10 @@ def coq_type(t) -> str:
         return f"(list {coq_type(t[1])})"
     if isinstance(t, tuple) and t[0] == "pb":
         return "(pbval K)"
+    if t == "fname":
+        return "string"
+    if isinstance(t, tuple) and t[0] == "dict":
+        return f"(list ({coq_type(t[1])} * {coq_type(t[2])}))"
     if isinstance(t, tuple) and t[0] == "cls":
         return f"{t[1]}_cls"
     if isinstance(t, tuple) and t[0] == "ename":
@@ -105,8 +112,10 @@ def compat(t, want) -> bool:
             return len(t[1]) == len(want[1]) and all(compat(a, b) for a, b in zip(t[1], want[1]))
         if t[0] in ("seq", "set", "opt"):
             return compat(t[1], want[1])
+        if t[0] == "dict":
+            return compat(t[1], want[1]) and compat(t[2], want[2])
         if t[0] == "pb":
-            return set(t[1].split("|")) <= set(want[1].split("|"))
+            return t[1] == "*" or want[1] == "*" or set(t[1].split("|")) <= set(want[1].split("|"))
         if t[0] == "iter":
             return compat(t[1], want[1])
     return False
@@ -126,8 +135,14 @@ def param_is_written(name: str, body: list) -> bool:
                     if isinstance(a, ast.Name) and a.id == name and not (isinstance(n.func, ast.Name) and n.func.id in ("len", "type", "isinstance", "getattr")):
                         return True
                     if isinstance(a, ast.Attribute) and isinstance(a.value, ast.Name) and a.value.id == name \
-                            and not (isinstance(n.func, ast.Name) and n.func.id in ("len", "type", "isinstance", "getattr")):
-                        return True  # a sub-message handed on
+                            and not (isinstance(n.func, ast.Name) and n.func.id in ("len", "type", "isinstance", "getattr")) \
+                            and any(d["name"] == a.attr and d["type"] == 11 for fs in MESSAGES.values() for d in fs):
+                        # a sub-message handed on: written if the callee may write to it (a method of self already translated
+                        # without in/out parameters only reads)
+                        if isinstance(n.func, ast.Attribute) and isinstance(n.func.value, ast.Name) and n.func.value.id == "self" \
+                                and n.func.attr in READER_METHODS:
+                            continue
+                        return True
             if isinstance(n, ast.Name) and n.id == name and isinstance(n.ctx, ast.Store):
                 return True
     return False
@@ -137,9 +152,11 @@ def is_mutable(t) -> bool:
     """Values Python passes by reference and the translated source may change in place."""
     if t == ("seq", "int"):
         return False  # bytes
+    if isinstance(t, tuple) and t[0] == "obj" and t[1] in OPAQUE:
+        return True
     if isinstance(t, tuple) and t[0] == "obj" and t[1] in FROZEN:
         return False  # @dataclass(frozen=True)
-    return isinstance(t, tuple) and t[0] in ("pb", "obj", "set", "seq", "iter")
+    return isinstance(t, tuple) and t[0] in ("pb", "obj", "set", "seq", "iter", "dict")
 
 
 def ann_type(a, classes) -> object:
@@ -152,8 +169,10 @@ def ann_type(a, classes) -> object:
             return a.id
         if a.id == "bytes":
             return ("seq", "int")
-        if a.id == "object":
+        if a.id in ("object", "Any"):
             return "any"
+        if a.id == "pbany":
+            return ("pb", "*")
         if a.id in ENUM_TYPES:
             return "int"
         if a.id in INT_ENUMS:
@@ -180,6 +199,8 @@ def ann_type(a, classes) -> object:
         return ("gen", ann_type(a.slice, classes))
     if isinstance(a, ast.Subscript) and isinstance(a.value, ast.Name) and a.value.id in ("Iterator", "Iterable"):
         return ("iter", ann_type(a.slice, classes))
+    if isinstance(a, ast.Subscript) and isinstance(a.value, ast.Name) and a.value.id == "dict" and isinstance(a.slice, ast.Tuple) and len(a.slice.elts) == 2:
+        return ("dict", ann_type(a.slice.elts[0], classes), ann_type(a.slice.elts[1], classes))
     if isinstance(a, ast.Subscript) and isinstance(a.value, ast.Name) and a.value.id == "set":
         return ("set", ann_type(a.slice, classes))
     if isinstance(a, ast.Subscript) and isinstance(a.value, ast.Name) and a.value.id == "tuple" and isinstance(a.slice, ast.Tuple) and a.slice.elts:
@@ -255,6 +276,7 @@ class Translator:
     def add_class(self, node: ast.ClassDef):
         if [ast.unparse(b) for b in node.bases] == ["NamedTuple"]:
             FROZEN.add(node.name)
+            NAMEDTUPLES.add(node.name)
             return self.add_dataclass(node)
         if any((isinstance(d, ast.Call) and isinstance(d.func, ast.Name) and d.func.id == "dataclass") or (isinstance(d, ast.Name) and d.id == "dataclass")
                for d in node.decorator_list) \
@@ -411,14 +433,46 @@ def _add_dataclass(self, node: ast.ClassDef):
 Translator.add_dataclass = _add_dataclass
 
 
-def generator_parts(ret, muts: list, env: dict):
+def generator_parts(ret, muts: list, env: dict, is_gen: bool = False):
     """A generator (`-> Generator[Y]`): translated as returning None with the list of the values it yields (ys__) as one
     more result; the list is threaded like an in/out parameter.  (What is NOT modelled: that a generator runs lazily,
     interleaved with its consumer -- only the sequence of yields, the final state and the exception, if any.)"""
+    if isinstance(ret, tuple) and ret[0] == "iter" and is_gen:
+        ret = ("gen", ret[1])
     if isinstance(ret, tuple) and ret[0] == "gen":
         yt = ("seq", ret[1])
         return "none", muts + [("ys__", yt)], {**env, "ys__": yt}, "let ys__ := [] in\n"
     return ret, muts, env, ""
+
+
+def add_opaque_class(tr: Translator, node: ast.ClassDef, fields: dict, param_types: dict | None = None) -> None:
+    """A class whose concrete subclasses live elsewhere (the integrations' adapters): an abstract type, its readable
+    fields as accessor parameters, every method a parameter of the translation."""
+    info = ClassInfo(node.name)
+    info.opaque = True
+    tr.classes[node.name] = info
+    tr.out.append(f"Context {{{node.name} : Type}}.")
+    for f, ann in fields.items():
+        t = ann_type(ast.parse(ann, mode="eval").body, tr.classes)
+        info.fields.append((f, t))
+        tr.out.append(f"Context ({node.name}_{f} : {node.name} -> {coq_type(t)}).")
+    for m in node.body:
+        if not isinstance(m, ast.FunctionDef) or m.name == "__init__":
+            continue
+        a = m.args
+        if a.vararg or a.kwarg or a.posonlyargs or a.kwonlyargs:
+            bad(m, "parameter kinds")
+        params = [(p.arg, ann_type(ast.parse((param_types or {}).get(f"{m.name}.{p.arg}", "0"), mode="eval").body if f"{m.name}.{p.arg}" in (param_types or {})
+                                    else p.annotation, tr.classes)) for p in a.args[1:]]
+        # what such a method is given it only reads (a list of decoded terms, strings)
+        params = [(p, ("seq", t[1]) if isinstance(t, tuple) and t[0] == "iter" else t) for p, t in params]
+        ret = ann_type(m.returns, tr.classes)
+        info.methods[m.name] = (params, ret)
+        info.method_defaults = getattr(info, "method_defaults", {})
+        nd = len(a.defaults)
+        info.method_defaults[m.name] = {p.arg for p in a.args[1:][len(a.args[1:]) - nd:]} if nd else set()
+        ty = " -> ".join([coq_type(t) for _, t in params] + [node.name, f"outcome {coq_type(ret)} * {node.name}"])
+        tr.out.append(f"Context ({node.name}_{m.name} : {ty}).")
 
 
 def emit_function(tr: Translator, name: str, body_stmts: list, params: list, ret) -> None:
@@ -550,6 +604,11 @@ class Mode:
                 bad(s, "yield outside a generator")
             return self.expr(s.value.value, env, lambda v, t: (
                 f"let ys__ := (ys__ ++ [{self.coerce(v, t, env['ys__'][1], s)}]) in\n{self.stmts(rest, env)}"))
+        if isinstance(s, ast.For) and isinstance(s.iter, ast.Name) and ("__ctuple__" + s.iter.id) in env:
+            s2 = ast.For(target=s.target, iter=ast.Tuple(elts=env["__ctuple__" + s.iter.id], ctx=ast.Load()), body=s.body, orelse=s.orelse)
+            ast.copy_location(s2, s)
+            ast.fix_missing_locations(s2)
+            return self.stmts([s2] + rest, env)
         # for x in <list>: a local fixpoint over the list; the state it carries = self, the in/out parameters, the locals the
         # body re-binds (and the yields); `return` / an exception inside the body leave the loop with that state
         if isinstance(s, ast.For) and not (isinstance(s.iter, ast.Tuple) and all(isinstance(c, ast.Constant) for c in s.iter.elts)):
@@ -592,7 +651,8 @@ class Mode:
             none_b, some_b = (s.body, s.orelse) if isinstance(s.test.ops[0], ast.Is) else (s.orelse, s.body)
             if t == "none":  # this copy of the continuation knows the variable holds None
                 return self.stmts(none_b + rest, env)
-            if t in ("int", "str", "bool") or (isinstance(t, tuple) and t[0] in ("obj", "seq", "set", "tuple")):
+            if t in ("int", "str", "bool", "any") or (isinstance(t, tuple) and t[0] in ("obj", "seq", "set", "tuple")):
+                # (`any`: what an adapter returned for a term -- assumed never to be None)
                 return self.stmts(some_b + rest, env)
             if not (isinstance(t, tuple) and t[0] == "opt"):
                 bad(s, "is None on a non-optional")
@@ -604,7 +664,7 @@ class Mode:
             if isinstance(first, ast.Name) and env.get(first.id) == "none":
                 return self.stmts(s.orelse + rest, env)  # this copy of the continuation knows the variable holds None
             if isinstance(first, ast.Name) and isinstance(env.get(first.id), tuple) and env[first.id][0] == "opt" and (
-                    env[first.id][1] in ("int", "str") or (isinstance(env[first.id][1], tuple) and env[first.id][1][0] in ("pb", "obj"))):
+                    env[first.id][1] in ("int", "str", "fname") or (isinstance(env[first.id][1], tuple) and env[first.id][1][0] in ("pb", "obj"))):
                 # a truthy optional is not None: inside the test's remaining operands and in the body the variable
                 # has its inner type (what mypy calls narrowing); in the else branch it keeps the optional type
                 x, inner_t = first.id, env[first.id][1]
@@ -659,7 +719,14 @@ class Mode:
         if isinstance(s, (ast.Assign, ast.AnnAssign)):
             if isinstance(s, ast.Assign):
                 if len(s.targets) != 1:
-                    bad(s, "chained assignment")
+                    # a = b = <constant>: one assignment per target
+                    if not (isinstance(s.value, ast.Constant) and all(isinstance(t_, ast.Name) for t_ in s.targets)):
+                        bad(s, "chained assignment")
+                    parts = [ast.Assign(targets=[t_], value=s.value) for t_ in s.targets]
+                    for p_ in parts:
+                        ast.copy_location(p_, s)
+                        ast.fix_missing_locations(p_)
+                    return self.stmts(parts + rest, env)
                 tgt = s.targets[0]
             else:
                 tgt = s.target
@@ -723,9 +790,16 @@ class Mode:
                         "if (" + " || ".join(f"({v} =? {n})" for n in nums) + f") then\n{go_chk(cs[1:])}\nelse {self.on_exn('ValueError')}"
                         if t == "int" else bad(s, "enum Name of a non-int")))
                 return go_chk(checks)
+            if isinstance(tgt, ast.Name) and isinstance(val, ast.Tuple) and val.elts and all(isinstance(c, ast.Constant) for c in val.elts):
+                env2 = dict(env)
+                env2["__ctuple__" + tgt.id] = list(val.elts)  # a name for a tuple of constants: only iterated (unrolled)
+                return self.stmts(rest, env2)
             if isinstance(tgt, ast.Name):
                 def k(v, t, tgt=tgt):
                     env2 = dict(env)
+                    env2.pop("__const__" + tgt.id, None)
+                    if isinstance(val, ast.Constant) and isinstance(val.value, str):
+                        env2["__const__" + tgt.id] = val.value
                     if isinstance(s, ast.AnnAssign):
                         try:
                             at = ann_type(s.annotation, self.tr.classes)
@@ -740,6 +814,16 @@ class Mode:
                 return self.expr(val, env, k)
             if isinstance(tgt, ast.Tuple) and all(isinstance(e, ast.Name) for e in tgt.elts) and len(tgt.elts) >= 2:
                 def k(v, t, tgt=tgt):
+                    if isinstance(t, tuple) and t[0] == "obj" and t[1] in NAMEDTUPLES and len(self.tr.classes[t[1]].fields) == len(tgt.elts):
+                        # a NamedTuple unpacks into its fields, in order
+                        env2 = dict(env)
+                        lets = ""
+                        tmp = self.tr.gensym("nt")
+                        for e_, (f_, ft_) in zip(tgt.elts, self.tr.classes[t[1]].fields):
+                            if e_.id != "_":
+                                env2[e_.id] = ft_
+                                lets += f"let {mangle(e_.id)} := ({t[1]}_{f_} {tmp}) in\n"
+                        return f"let {tmp} := {v} in\n{lets}{self.stmts(rest, env2)}"
                     ts = list(t[1:]) if isinstance(t, tuple) and t[0] == "pair" else t[1] if isinstance(t, tuple) and t[0] == "tuple" else None
                     if ts is None or len(ts) != len(tgt.elts):
                         bad(s, "unpacking a value that is not a tuple of that length")
@@ -796,6 +880,10 @@ class Mode:
 
                 def k_idx(iv, it):
                     def k_val(v, t):
+                        if isinstance(ft, tuple) and ft[0] == "dict":
+                            if not compat(it, ft[1]) or not compat(t, ft[2]):
+                                bad(s, "dictionary item types")
+                            return self.write_field(f, f"(ad_set str_eqb {iv} {v} {self.read_field(f)})", ft, lambda: self.stmts(rest, env))
                         if ft == "od":
                             if it != "str" or t != "int":
                                 bad(s, "OrderedDict item types")
@@ -939,7 +1027,7 @@ class Mode:
             if t == "str":
                 return k(f"(negb (str_is_empty {v}))")
             if isinstance(t, tuple) and t[0] == "opt":
-                if not (t[1] in ("int", "str", "bool") or (isinstance(t[1], tuple) and t[1][0] in ("pb", "obj"))):
+                if not (t[1] in ("int", "str", "bool", "fname") or (isinstance(t[1], tuple) and t[1][0] in ("pb", "obj"))):
                     bad(e, f"truth value of {t}")
                 inner = {"int": "negb (x_ =? 0)", "str": "negb (str_is_empty x_)", "bool": "x_"}.get(t[1], "true")
                 return k(f"(match {v} with Some x_ => {inner} | None => false end)")
@@ -987,6 +1075,8 @@ class Mode:
             return go_t(list(e.elts), [], [])
         if isinstance(e, ast.List) and not e.elts:
             return k("[]", ("seq", "?"))
+        if isinstance(e, ast.Dict) and not e.keys:
+            return k("[]", ("dict", "?", "?"))
         if isinstance(e, ast.Name) and e.id not in env and e.id in getattr(tr, "class_tags", {}):
             root, tag = tr.class_tags[e.id]
             return k(tag, ("cls", root))
@@ -1144,6 +1234,8 @@ class Mode:
             def k_obj(o, ot):
                 def k_i(i, it):
                     x, ex = tr.gensym("x"), tr.gensym("e")
+                    if isinstance(ot, tuple) and ot[0] == "dict" and compat(it, ot[1]):
+                        return f"match ad_get str_eqb {i} {o} with\n| Exn {ex} => {self.on_exn(ex)}\n| Val {x} =>\n{k(x, ot[2])}\nend"
                     if ot == "od" and it == "str":
                         return f"match od_get str_eqb {i} {o} with\n| Exn {ex} => {self.on_exn(ex)}\n| Val {x} =>\n{k(x, 'int')}\nend"
                     if isinstance(ot, tuple) and ot[0] == "seq" and it == "int":
@@ -1360,6 +1452,32 @@ class Mode:
             return self.expr(e.args[0], env, lambda it, itt: self.expr(e.keywords[0].value, env, lambda n, nt: (
                 f"match deque_make {it} {n} with\n| Exn {ex} => {self.on_exn(ex)}\n| Val {x} =>\n{k(x, itt)}\nend"
                 if nt == "int" and isinstance(itt, tuple) and itt[0] == "seq" else bad(e, "deque arguments"))))
+        # isinstance(x, (jelly.A, jelly.B)) / isinstance(x, jelly.A) on a protobuf value whose class is only known at run time
+        if isinstance(f, ast.Name) and f.id == "isinstance" and len(e.args) == 2 and not e.keywords and isinstance(e.args[0], ast.Name) \
+                and env.get(e.args[0].id) == ("pb", "*"):
+            cls_nodes = e.args[1].elts if isinstance(e.args[1], ast.Tuple) else [e.args[1]]
+            names = []
+            for c in cls_nodes:
+                if not (isinstance(c, ast.Attribute) and isinstance(c.value, ast.Name) and c.value.id == "jelly" and c.attr in MESSAGES):
+                    bad(e, "isinstance class")
+                names.append(c.attr)
+            x_ = mangle(e.args[0].id)
+            return k("(" + " || ".join(f'String.eqb (pb_kind {x_}) "{n}"%string' for n in names) + ")", "bool")
+        # getattr(m, field) where field is what WhichOneof returned (None: TypeError, attribute name must be string)
+        if isinstance(f, ast.Name) and f.id == "getattr" and len(e.args) == 2 and not e.keywords and isinstance(e.args[0], ast.Name) \
+                and isinstance(env.get(e.args[0].id), tuple) and env[e.args[0].id][0] == "pb":
+            m_ = mangle(e.args[0].id)
+
+            def k_fn(fv, ft_):
+                v_ = tr.gensym("v")
+                if ft_ == "fname":
+                    return f"match msg_field {fv} {m_} with\n| None => {self.on_exn('AttributeError')}\n| Some {v_} =>\n{k(v_, ('pb', '*'))}\nend"
+                if ft_ == ("opt", "fname"):
+                    n_ = tr.gensym("n")
+                    return (f"match {fv} with\n| None => {self.on_exn('TypeError')}\n| Some {n_} =>\nmatch msg_field {n_} {m_} with\n"
+                            f"| None => {self.on_exn('AttributeError')}\n| Some {v_} =>\n{k(v_, ('pb', '*'))}\nend\nend")
+                bad(e, "getattr with a computed name")
+            return self.expr(e.args[1], env, k_fn)
         # getattr(m, "field", default) on a message: the field if the class has it, else the default
         if isinstance(f, ast.Name) and f.id == "getattr" and len(e.args) == 3 and not e.keywords and isinstance(e.args[0], ast.Name) \
                 and isinstance(env.get(e.args[0].id), tuple) and env[e.args[0].id][0] == "pb" and isinstance(e.args[1], ast.Constant) \
@@ -1450,6 +1568,24 @@ class Mode:
                                                                            if p not in given and p in cls.defaults])
             return self.args(filled, params, env, lambda a: (
                 f"match {cls.name}___init__ {' '.join(a)} with\n| Exn {ex} => {self.on_exn(ex)}\n| Val {o} =>\n{k(o, ('obj', cls.name))}\nend"))
+        # <message>.HasField("f") / <message>.WhichOneof("group")
+        if isinstance(f.value, ast.Name) and isinstance(env.get(f.value.id), tuple) and env[f.value.id][0] == "pb" and len(e.args) == 1 \
+                and not e.keywords and f.attr in ("HasField", "WhichOneof") and isinstance(e.args[0], ast.Name) and ("__const__" + e.args[0].id) in env:
+            e = ast.Call(func=f, args=[ast.Constant(value=env["__const__" + e.args[0].id])], keywords=[])
+        if isinstance(f.value, ast.Name) and isinstance(env.get(f.value.id), tuple) and env[f.value.id][0] == "pb" and len(e.args) == 1 \
+                and not e.keywords and isinstance(e.args[0], ast.Constant) and isinstance(e.args[0].value, str) and f.attr in ("HasField", "WhichOneof"):
+            mt = env[f.value.id][1]
+            cands = mt.split("|") if mt != "*" else list(MESSAGES)
+            if f.attr == "HasField":
+                if not any(d["name"] == e.args[0].value for c in cands for d in MESSAGES[c]):
+                    bad(e, "HasField of an unknown field")
+                return k(f'(msg_has "{e.args[0].value}"%string {mangle(f.value.id)})', "bool")
+            groups = [[d["name"] for d in MESSAGES[c] if d["oneof"] == e.args[0].value] for c in cands]
+            groups = [g for g in groups if g]
+            if not groups or any(g != groups[0] for g in groups):
+                bad(e, "WhichOneof group")
+            gl = "[" + "; ".join(f'"{g}"%string' for g in groups[0]) + "]"
+            return k(f"(msg_which {gl} {mangle(f.value.id)})", ("opt", "fname"))
         # <local str>.rpartition(sep)
         if isinstance(f.value, ast.Name) and env.get(f.value.id) == "str" and f.attr == "rpartition" and len(e.args) == 1 and not e.keywords:
             return self.expr(e.args[0], env, lambda sp, st: (
@@ -1671,7 +1807,14 @@ UNITS = {
                 "items": ["SerializerOptions",
                           {"family": "Stream", "classes": ["Stream", "TripleStream", "QuadStream", "GraphStream"]}]},
     "decode": {"src": "pyjelly/parse/decode.py", "ctx": True, "uses": ["lookup_dec", "options"], "gen": "DecodeGen",
-               "items": ["ParserOptions", "options_from_frame"]},
+               "items": ["ParserOptions", "options_from_frame",
+                         # (the source annotates the decoded IRI handed to namespace_declaration as `str`; it is what adapter.iri returned)
+                         {"opaque": "Adapter", "fields": {"options": "ParserOptions"}, "param_types": {"namespace_declaration.iri": "Any"}},
+                         {"family": "Decoder", "classes": ["Decoder"],
+                          "skip_fields": ["row_handlers", "term_handlers"],
+                          "field_types": {"repeated_terms": "dict[str, object]"},
+                          "skip": ["iter_rows", "decode_row", "decode_term", "decode_graph_start", "decode_statement", "decode_triple",
+                                   "decode_quoted_triple", "decode_quad"]}]},
     "encode": {"src": "pyjelly/serialize/encode.py", "ctx": True, "uses": ["lookup_enc", "options"], "gen": "EncodeGen",
                "items": ["split_iri", ("TermEncoder", ["__init__", "start_statement", "_entry_index", "encode_iri_indices", "encode_iri",
                                                        "encode_default_graph", "encode_literal"], ["encode_spo", "encode_graph"]),
@@ -1699,6 +1842,7 @@ def ctx_analysis(out: list[str], imported: dict[str, list[str]], any_ctx: bool, 
     decls: list[tuple[str, str]] = [("T", "Context {T : Type} (any_eqb : T -> T -> bool).")] if any_ctx else []
     deps: dict[str, set[str]] = {}
     implicit: list[str] = []
+    implicit_types: set[str] = {"T"}
     for v, decl in inherited:  # virtual methods declared by the units this one builds on: section variables here too
         if v == "T":
             continue
@@ -1713,7 +1857,7 @@ def ctx_analysis(out: list[str], imported: dict[str, list[str]], any_ctx: bool, 
         if re.search(r"\bT\b", body):
             d.add("T")
         for v in order:
-            if v not in ("S", "T") and re.search(r"\b" + re.escape(v) + r"\b", body):
+            if v not in ("S", "T") and re.search(r"(?<![\w.])" + re.escape(v) + r"\b", body):
                 d |= var_deps[v] | {v}
         for n, dn in imported.items():
             if re.search(r"(?<![\w.])" + re.escape(n) + r"\b", body):
@@ -1724,6 +1868,14 @@ def ctx_analysis(out: list[str], imported: dict[str, list[str]], any_ctx: bool, 
         return d
 
     for item in out:
+        mt = re.match(r"Context \{(\w+) : Type\}\.$", item)
+        if mt:
+            v = mt.group(1)
+            var_deps[v] = {v}
+            order.append(v)
+            decls.append((v, item))
+            implicit_types.add(v)
+            continue
         mc = re.match(r"Context \((\w+) : (.*)\)\.$", item, flags=re.S)
         if mc:
             v = mc.group(1)
@@ -1797,6 +1949,8 @@ def run_unit(repo: Path, unit: str) -> tuple["Translator", set[str], list[str]]:
     INT_ENUMS.clear()
     items = u["items"]
     tr.consts.update(module_consts(f))
+    opaque_specs = {i["opaque"]: i for i in (items or []) if isinstance(i, dict) and "opaque" in i}
+    items = None if items is None else [i for i in items if not (isinstance(i, dict) and "opaque" in i)] + list(opaque_specs)
     fam_specs = [i for i in (items or []) if isinstance(i, dict)]
     fam_classes = {c: spec for spec in fam_specs for c in spec["classes"]}
     items = None if items is None else [i for i in items if not isinstance(i, dict)] + [spec["classes"][0] for spec in fam_specs]
@@ -1861,6 +2015,11 @@ def run_unit(repo: Path, unit: str) -> tuple["Translator", set[str], list[str]]:
             ordered.append(n)
         chosen = ordered
     for n in chosen:
+        if isinstance(n, ast.ClassDef) and n.name in opaque_specs:
+            OPAQUE.add(n.name)
+            tr.out.append(f"(* ---- class {n.name} ({rel}): abstract here, the integrations' adapters are its subclasses *)")
+            add_opaque_class(tr, n, opaque_specs[n.name].get("fields", {}), opaque_specs[n.name].get("param_types"))
+            continue
         if isinstance(n, ast.ClassDef) and n.name in fam_classes:
             import family
 
@@ -1869,7 +2028,7 @@ def run_unit(repo: Path, unit: str) -> tuple["Translator", set[str], list[str]]:
             if [x.name for x in nodes] != spec["classes"]:
                 bad(n, f"{rel} no longer defines the classes {spec['classes']} in that order")
             tr.out.append(f"(* ---- class family {spec['family']} ({rel}): {', '.join(spec['classes'])} *)")
-            family.add_family(tr, spec["family"], nodes, spec.get("userlist", False), rel, tuple(spec.get("skip", ())))
+            family.add_family(tr, spec["family"], nodes, spec.get("userlist", False), rel, tuple(spec.get("skip", ())), spec)
             continue
         if isinstance(n, (ast.Assign, ast.AnnAssign)) and isinstance(n.value, ast.Dict):
             # {jelly constant: class of a family}
